@@ -245,7 +245,7 @@ type MonFinality struct {
 	Prop string
 }
 
-func NewMonFinality() *MonFinality { return &MonFinality{st: map[*App]*finState{}, Prop: "C02"} }
+func NewMonFinality() *MonFinality  { return &MonFinality{st: map[*App]*finState{}, Prop: "C02"} }
 func (m *MonFinality) Name() string { return "finality" }
 
 func expectedStoredBody(d *Delivered) string {
